@@ -59,3 +59,34 @@ contract('hl7apy.parser:_get_encoding_chars', sig={'encoding_chars': 'dict[str]?
                               'result is global_("hl7apy:_DEFAULT_ENCODING_CHARS"))')],
          raises={'InvalidEncodingChars': {'when': 'encoding_chars is not None'}},
          raises_only=['InvalidEncodingChars'], modifies=[], properties=['C07', 'C15', 'C17'])
+
+# C17 "changing the defaults never alters elements that already exist": each setter rebinds exactly ONE module-level
+# variable (frame: `modifies` names that global only - no heap cell of any existing element, no other default), and only
+# after the value was checked (a rejected value leaves every default untouched: exceptional frame `modifies=[]`).
+contract('hl7apy:set_default_validation_level', sig={'validation_level': 'any'}, returns='none',
+         ensures=[('stored', 'global_("hl7apy:_DEFAULT_VALIDATION_LEVEL") == validation_level'),
+                  ('valid', 'validation_level == 1 or validation_level == 2')],
+         raises={'UnknownValidationLevel': {'when': 'not (validation_level == 1 or validation_level == 2)',
+                                            'must': 'not (validation_level == 1 or validation_level == 2)',
+                                            'modifies': []}},
+         raises_only=['UnknownValidationLevel'], modifies=['global hl7apy:_DEFAULT_VALIDATION_LEVEL'],
+         properties=['C17'])
+contract('hl7apy:set_default_version', sig={'version': 'str'}, returns='none',
+         ensures=[('stored', 'global_("hl7apy:_DEFAULT_VERSION") == version'),
+                  ('supported', 'dhas(global_("hl7apy:SUPPORTED_LIBRARIES"), version)')],
+         raises={'UnsupportedVersion': {'when': 'not dhas(global_("hl7apy:SUPPORTED_LIBRARIES"), version)',
+                                        'must': 'not dhas(global_("hl7apy:SUPPORTED_LIBRARIES"), version)',
+                                        'modifies': []}},
+         raises_only=['UnsupportedVersion'], modifies=['global hl7apy:_DEFAULT_VERSION'],
+         properties=['C17'])
+contract('hl7apy:set_default_encoding_chars', sig={'encoding_chars': 'dict[str]'}, returns='none',
+         ensures=[('stored', 'global_("hl7apy:_DEFAULT_ENCODING_CHARS") is encoding_chars'),
+                  ('all_present', _ALL_PRESENT), ('distinct', _DISTINCT5), ('truncation_distinct', _TRUNC_DISTINCT),
+                  ('group', 'dhas(encoding_chars, "GROUP") and dget(encoding_chars, "GROUP") == "\\r"'),
+                  ('segment', 'dhas(encoding_chars, "SEGMENT") and dget(encoding_chars, "SEGMENT") == "\\r"')],
+         raises={'InvalidEncodingChars': {'when': 'not (%s and %s and %s)' % (_ALL_PRESENT, _DISTINCT5, _TRUNC_DISTINCT),
+                                          'modifies': []}},
+         raises_only=['InvalidEncodingChars'],
+         modifies=['global hl7apy:_DEFAULT_ENCODING_CHARS', 'encoding_chars{}'],
+         properties=['C17', 'C07'],
+         notes='the v2.7 default set (_DEFAULT_ENCODING_CHARS_27) is a separate global and is not touched: frame obligation')
